@@ -372,7 +372,7 @@ def run_check(pid, tier, seed):
         discharged += len(pres['theorems'])
     else:
         first_err = ''
-        m = re.search(r'File "([^"]+)", line (\d+)[^\n]*\n(?:.*\n)*?Error:([^\n]*(?:\n[^\n]*){0,4})', pres['log'] + '\n' + b.coq_log)
+        m = re.search(r'File "([^"]+)", line (\d+)[^\n]*\n(?:.*\n)*?Error:([^\n]*(?:\n[^\n]*){0,4})', (b.coq_log if b.coq_failed else '') + '\n' + pres['log'])
         if m:
             first_err = '%s:%s %s' % (m.group(1), m.group(2), ' '.join(m.group(3).split())[:300])
         broken.append('proof: %s does not compile (%s); failed files: %s' % (prop.props_file, first_err, ', '.join(b.coq_failed) or '-'))
@@ -398,15 +398,17 @@ def run_check(pid, tier, seed):
         extra_cov = ex.get('coverage', {})
 
     # ---- correspondence
-    corr = {'cases': 0, 'skipped_out_of_model': 0, 'mismatches': [], 'distinct': 0, 'samples': []}
-    summary = {}
-    mon_fails = []
-    if b.go_ok and prop.harness:
-        n = prop.quick_n if tier == 'quick' else prop.thorough_n
-        cmd = [os.path.join(BUILD, 'harness'), prop.harness, '-seed', str(seed), '-n', str(n), '-out', run_dir]
-        if tier == 'thorough':
+    def explore(n, seed_, thorough):
+        """run harness + model once; returns (corr, summary, monitor failures)"""
+        corr = {'cases': 0, 'skipped_out_of_model': 0, 'mismatches': [], 'distinct': 0, 'samples': []}
+        summary = {}
+        mon_fails = []
+        if not (b.go_ok and prop.harness):
+            return corr, summary, mon_fails
+        cmd = [os.path.join(BUILD, 'harness'), prop.harness, '-seed', str(seed_), '-n', str(n), '-out', run_dir]
+        if thorough:
             cmd.append('-thorough')
-        rc, out, dt = sh(cmd, timeout=prop.harness_timeout if tier == 'quick' else 6 * prop.harness_timeout, env=GOENV)
+        rc, out, dt = sh(cmd, timeout=prop.harness_timeout if not thorough else 6 * prop.harness_timeout, env=GOENV)
         if rc != 0:
             broken.append('harness %s exited %d: %s' % (prop.harness, rc, out[-1500:]))
         try:
@@ -425,44 +427,59 @@ def run_check(pid, tier, seed):
                 mon_fails.append(r)
         if b.model_ok and rc == 0:
             corr = correspondence(prop, run_dir, b)
+        return corr, summary, mon_fails
 
-    # monitor failures observed directly on the implementation
-    mismatch_keys = frozenset((mm.get('entry'), tuple(mm.get('input') or [])) for mm in corr['mismatches'])
-    for r in mon_fails:
-        k = match_known(r, known, pid, mismatch_keys)
-        if k:
-            known_hits.setdefault(k['id'], []).append(r)
-        else:
-            violations.append(r)
-
-    # mismatches: decide with the extracted monitor when there is one
-    undecided = []
-    by_entry = {}
-    for mm in corr['mismatches']:
-        by_entry.setdefault(mm['entry'], []).append(mm)
-    for e, mms in by_entry.items():
-        cases = [(mm['input'], [int(x) for x in mm['impl'].split()]) for mm in mms if mm.get('input') and 'impl' in mm]
-        verdicts = run_monitor_entry(e, cases) if cases else None
-        j = 0
-        for mm in mms:
-            v = 2
-            if mm.get('input') and 'impl' in mm and verdicts is not None and j < len(verdicts):
-                v = verdicts[j]
-                j += 1
-            elif mm.get('input') and 'impl' in mm:
-                j += 1
-            mm['kind'] = 'model-impl-mismatch'
-            k = match_known(mm, known, pid)
+    def classify(corr, mon_fails):
+        """sorts what a run found into violations / known / undecided"""
+        viol, und = [], []
+        mismatch_keys = frozenset((mm.get('entry'), tuple(mm.get('input') or [])) for mm in corr['mismatches'])
+        for r in mon_fails:
+            k = match_known(r, known, pid, mismatch_keys)
             if k:
-                known_hits.setdefault(k['id'], []).append(mm)
-            elif v == 0:
-                mm['kind'] = 'monitor-violated-on-mismatch'
-                violations.append(mm)
+                known_hits.setdefault(k['id'], []).append(r)
             else:
-                undecided.append(mm)
+                viol.append(r)
+        by_entry = {}
+        for mm in corr['mismatches']:
+            by_entry.setdefault(mm['entry'], []).append(mm)
+        for e, mms in by_entry.items():
+            cases = [(mm['input'], [int(x) for x in mm['impl'].split()]) for mm in mms if mm.get('input') and 'impl' in mm]
+            verdicts = run_monitor_entry(e, cases) if cases else None
+            j = 0
+            for mm in mms:
+                v = 2
+                if mm.get('input') and 'impl' in mm:
+                    if verdicts is not None and j < len(verdicts):
+                        v = verdicts[j]
+                    j += 1
+                    if e in prop.spec_entries:
+                        v = 0      # the model is the reference spec named by the property
+                mm['kind'] = 'model-impl-mismatch'
+                k = match_known(mm, known, pid)
+                if k:
+                    known_hits.setdefault(k['id'], []).append(mm)
+                elif v == 0:
+                    mm['kind'] = 'spec-violated' if e in prop.spec_entries else 'monitor-violated-on-mismatch'
+                    viol.append(mm)
+                else:
+                    und.append(mm)
+        return viol, und
+
+    n = prop.quick_n if tier == 'quick' else prop.thorough_n
+    corr, summary, mon_fails = explore(n, seed, tier == 'thorough')
+    v1, undecided = classify(corr, mon_fails)
+    violations += v1
     if undecided:
         broken.append('correspondence: %d case(s) where model and implementation differ and the property monitor does not fail, e.g. %s'
                       % (len(undecided), json.dumps({k: undecided[0].get(k) for k in ('entry', 'comment', 'input', 'impl', 'model', 'detail')})[:700]))
+    searched = 0
+    if broken and not violations and prop.search_n and b.go_ok:
+        # something no longer checks: search harder for a concrete failing input
+        log('  searching for a failing input (n=%d) ...' % prop.search_n)
+        corr2, _, mon2 = explore(prop.search_n, seed + 1, True)
+        v2, _ = classify(corr2, mon2)
+        violations += v2
+        searched = corr2['cases']
 
     # ---- output
     for fid, hits in known_hits.items():
@@ -501,6 +518,7 @@ def run_check(pid, tier, seed):
         'input_distribution': summary.get('distribution', {}),
         'known_findings_reproduced': sorted(known_hits.keys()),
         'broken': broken,
+        'failing_input_search_cases': searched,
     }
     cov.update(extra_cov)
     write_evidence(prop, tier, seed, cov, prop.assumptions, time.time() - t0, len(violations) + (1 if (broken and not violations) else 0))
